@@ -525,6 +525,15 @@ func (b *Bulk) Failed() { b.sr.Passed = false }
 // Hash64 exposes the FNV-1a hash used for distinct counting.
 func Hash64(b []byte) uint64 { return hash64("", b) }
 
+// InfraAndExit ends the process as inconclusive (for example when the code under test hangs in a
+// check whose property says nothing about termination).
+func InfraAndExit(prop, sub string, c any, msg string) {
+	p := writeReplay(prop, sub, c, "PRECONDITION/INFRA: "+msg)
+	fmt.Printf("VERIF-INFRA property=%s sub=%s %s; case saved to %s\n", prop, sub, msg, p)
+	flushPart(2, time.Now())
+	os.Exit(2)
+}
+
 // FailAndExit reports a violation that cannot be shrunk or safely continued from (for example a
 // hung call whose goroutines are still running), flushes the evidence part and exits the process.
 func FailAndExit(prop, sub string, c any, err error) {
